@@ -1061,7 +1061,16 @@ def gen_path_cases(ctx, out, earlies):
 # ------------------------------------------------------------------------------------------------
 def _same(c, model, impl, spec_ok):
     if model.startswith('err') and impl.startswith('err'):
-        return True          # numpy / scipy word an error differently; same refusal
+        # the exception *class* is compared (the model's enum are the classes the code raises: ValueError of
+        # non numeric weights / max() of an empty sequence / scipy's index checks, IndexError of short tuples
+        # and 1-d arrays, KeyError / AttributeError / TypeError of GraphML look-ups, ...); only subclasses that
+        # the standard library is free to refine are identified
+        alias = {'OutsideDestinationError': 'FilterError', 'AbsoluteLinkError': 'FilterError',
+                 'LinkOutsideDestinationError': 'FilterError', 'SpecialFileError': 'FilterError',
+                 'AbsolutePathError': 'FilterError', 'NotADirectoryError': 'FileNotFoundError',
+                 'IsADirectoryError': 'FileNotFoundError'}
+        m, i = model[4:], impl[4:]
+        return alias.get(m, m) == alias.get(i, i)
     if c.canon in ('files', 'dataset') and model.startswith('ok') and impl.startswith('ok'):
         return sorted(model[3:].split(',')) == sorted(impl[3:].split(','))   # os.listdir order is not defined
     if c.canon == 'paths' and model.startswith('ok') and impl.startswith('ok! '):
